@@ -31,106 +31,110 @@ def run(ctx):
     })
     files = ["hypergraphx/measures/degree.py", "hypergraphx/utils/cc.py", "hypergraphx/utils/visits.py"]
     ctx.add_sites(res, ctx.sites(rules=("C-SIG", "K-ARG", "K-MEM", "K-KEY-LOCAL"), files=files))
-    check_filter_clients(ctx, res, DEGREE + CC + VISITS)
+    with res.guard("check_filter_clientsctx, res, DEGREE  CC  VISITS"):
+        check_filter_clients(ctx, res, DEGREE + CC + VISITS)
     for cls in ("Hypergraph", "DirectedHypergraph", "TemporalHypergraph"):
-        RC.check_neighbors(ctx, res, cls)
+        with res.guard("RC.check_neighborsctx, res, cls"):
+            RC.check_neighbors(ctx, res, cls)
 
     # ---- degree = len(filtered incident list of the same node)
-    v = ctx.view("degree.degree")
-    rets = [n for n in walk_no_nested(v.fi.node) if isinstance(n, ast.Return)]
-    if not rets:
-        raise AnalysisError("degree.degree: no return")
-    for r in rets:
-        e = r.value
-        ok = (
-            isinstance(e, ast.Call) and isinstance(e.func, ast.Name) and e.func.id == "len" and len(e.args) == 1
-            and isinstance(e.args[0], ast.Call) and isinstance(e.args[0].func, ast.Attribute) and e.args[0].func.attr == "get_incident_edges"
-            and e.args[0].args and isinstance(e.args[0].args[0], ast.Name) and e.args[0].args[0].id == "node"
-        )
-        if not ok and isinstance(e, ast.Call) and isinstance(e.func, ast.Name) and e.func.id == "len" and e.args and isinstance(e.args[0], ast.Call) and isinstance(e.args[0].func, ast.Name) and e.args[0].func.id in ("list", "set", "tuple"):
-            inner = e.args[0].args[0] if e.args[0].args else None
-            ok = isinstance(inner, ast.Call) and isinstance(inner.func, ast.Attribute) and inner.func.attr == "get_incident_edges" and inner.args and isinstance(inner.args[0], ast.Name) and inner.args[0].id == "node" and e.args[0].func.id != "set" or (e.args[0].func.id == "set" and False)
-        res.check(bool(ok), "D-LEN", v.fi.short, norm(r), "len(incident)", "degree is not the length of the node's (filtered) incident-hyperedge list", loc(v.fi, r))
-
-    # ---- degree_sequence: {node: hg.degree(node, ...) for node in hg.get_nodes()}
-    v = ctx.view("degree.degree_sequence")
-    comps = [n for n in walk_no_nested(v.fi.node) if isinstance(n, ast.DictComp)]
-    if not comps:
-        raise AnalysisError("degree.degree_sequence: dict comprehension idiom not found")
-    for c in comps:
-        g = c.generators[0]
-        it_ok = isinstance(g.iter, ast.Call) and isinstance(g.iter.func, ast.Attribute) and g.iter.func.attr == "get_nodes" and not g.ifs and len(c.generators) == 1
-        tgt = g.target.id if isinstance(g.target, ast.Name) else None
-        key_ok = isinstance(c.key, ast.Name) and c.key.id == tgt
-        val_ok = isinstance(c.value, ast.Call) and isinstance(c.value.func, ast.Attribute) and c.value.func.attr == "degree" and c.value.args and isinstance(c.value.args[0], ast.Name) and c.value.args[0].id == tgt
-        res.check(it_ok, "D-SEQ", v.fi.short, norm(c), "all-nodes", "the degree sequence does not range over every node of get_nodes() exactly once", loc(v.fi, c))
-        res.check(key_ok and val_ok, "D-SEQ", v.fi.short, norm(c), "same-node", "the degree stored for a node is not degree(<that node>)", loc(v.fi, c))
-    v = ctx.view("degree.degree_distribution")
-    augs = [n for n in walk_no_nested(v.fi.node) if isinstance(n, ast.AugAssign)]
-    res.check(bool(augs) and all(isinstance(a.op, ast.Add) and isinstance(a.value, ast.Constant) and a.value.value == 1 for a in augs), "D-SEQ", v.fi.short, norm(augs[0]) if augs else "+= 1", "histogram", "the degree histogram does not count each node exactly once", loc(v.fi, augs[0] if augs else v.fi.node))
-    loops = [n for n in walk_no_nested(v.fi.node) if isinstance(n, ast.For)]
-    res.check(any(isinstance(l.iter, ast.Call) and isinstance(l.iter.func, ast.Attribute) and l.iter.func.attr in ("items", "values") for l in loops), "D-SEQ", v.fi.short, "for node, deg in degree_seq.items()", "over-sequence", "the histogram is not built from the degree sequence", loc(v.fi, v.fi.node))
-
-    # ---- connected_components sweep
-    v = ctx.view("cc.connected_components")
-    f = v.fi.short
-    loops = [n for n in walk_no_nested(v.fi.node) if isinstance(n, ast.For) and isinstance(n.iter, ast.Call) and isinstance(n.iter.func, ast.Attribute) and n.iter.func.attr == "get_nodes"]
-    res.check(len(loops) == 1, "CC-COVER", f, "for node in hg.get_nodes()", "sweep", "the component sweep does not range over every node", loc(v.fi, v.fi.node))
-    for lp in loops:
-        node = lp.target.id if isinstance(lp.target, ast.Name) else None
-        guards = [n for n in ast.walk(lp) if isinstance(n, ast.If) and isinstance(n.test, ast.Compare) and len(n.test.ops) == 1 and isinstance(n.test.ops[0], ast.NotIn) and isinstance(n.test.left, ast.Name) and n.test.left.id == node and isinstance(n.test.comparators[0], ast.Name)]
-        res.check(len(guards) == 1, "CC-COVER", f, f"if {node} not in visited", "guard", "a search is not started exactly for the nodes that are not yet visited", loc(v.fi, lp))
-        for g in guards:
-            vis = g.test.comparators[0].id
-            searches = [c for c in ast.walk(g) if isinstance(c, ast.Call) and isinstance(c.func, ast.Name) and c.func.id in ("_bfs", "_dfs")]
-            s_ok = [c for c in searches if len(c.args) >= 2 and isinstance(c.args[1], ast.Name) and c.args[1].id == node]
-            res.check(bool(s_ok), "CC-COVER", f, norm(searches[0]) if searches else "_bfs(hg, node, ...)", "search-from-node", "the search is not started from the unvisited node", loc(v.fi, g))
-            comp_names = set()
-            for a in ast.walk(g):
-                if isinstance(a, ast.Assign) and isinstance(a.value, ast.Call) and a.value in s_ok and isinstance(a.targets[0], ast.Name):
-                    comp_names.add(a.targets[0].id)
-            marked = False
-            appended = False
-            for a in ast.walk(g):
-                if isinstance(a, ast.AugAssign) and isinstance(a.target, ast.Name) and a.target.id == vis and isinstance(a.value, ast.Name) and a.value.id in comp_names:
-                    marked = True
-                if isinstance(a, ast.Call) and isinstance(a.func, ast.Attribute) and isinstance(a.func.value, ast.Name) and a.func.value.id == vis and a.func.attr in ("extend", "update") and a.args and isinstance(a.args[0], ast.Name) and a.args[0].id in comp_names:
-                    marked = True
-                if isinstance(a, ast.Call) and isinstance(a.func, ast.Attribute) and a.func.attr == "append" and a.args and isinstance(a.args[0], ast.Name) and a.args[0].id in comp_names:
-                    appended = True
-            res.check(marked, "CC-COVER", f, f"{vis} += component", "mark-visited", "the nodes of a found component are not marked visited (components would be reported repeatedly)", loc(v.fi, g))
-            res.check(appended, "CC-COVER", f, "components.append(component)", "collect", "a found component is not added to the result", loc(v.fi, g))
-    # ---- B-START: the start node itself always belongs to the visited set a search returns
-    res.rules["B-START"] = "a search puts its start node (the node dequeued from a queue seeded with `start`) into the returned set, guarded by nothing but `not in visited`"
-    for d in ("visits._bfs", "visits._dfs"):
-        v = ctx.view(d)
-        f = v.fi.short
-        rets = [n for n in walk_no_nested(v.fi.node) if isinstance(n, ast.Return) and isinstance(n.value, ast.Name)]
+    with res.guard("degree = len(filtered incident list of the same node)"):
+        v = ctx.view("degree.degree")
+        rets = [n for n in walk_no_nested(v.fi.node) if isinstance(n, ast.Return)]
         if not rets:
-            raise AnalysisError(f"{f}: return of the visited set not found")
-        V = rets[0].value.id
-        adders = {f"{V}.add"}
-        for n in walk_no_nested(v.fi.node):
-            if isinstance(n, ast.Assign) and isinstance(n.targets[0], ast.Name) and norm(n.value) == f"{V}.add":
-                adders.add(n.targets[0].id)
-        # the container seeded with start, and the names unpacked from popping it
-        seeded = [n for n in walk_no_nested(v.fi.node) if isinstance(n, ast.Assign) and isinstance(n.targets[0], ast.Name) and "start" in {x.id for x in ast.walk(n.value) if isinstance(x, ast.Name)} and n.targets[0].id != V]
-        qnames = {n.targets[0].id for n in seeded}
-        popped = set()
-        for n in walk_no_nested(v.fi.node):
-            if isinstance(n, ast.Assign) and isinstance(n.value, ast.Call) and isinstance(n.value.func, ast.Attribute) and n.value.func.attr in ("popleft", "pop") and norm(n.value.func.value) in qnames:
-                tg = n.targets[0]
-                first = tg.elts[0] if isinstance(tg, ast.Tuple) else tg
-                if isinstance(first, ast.Name):
-                    popped.add(first.id)
-        init_has_start = any(isinstance(n, ast.Assign) and isinstance(n.targets[0], ast.Name) and n.targets[0].id == V and "start" in {x.id for x in ast.walk(n.value) if isinstance(x, ast.Name)} for n in walk_no_nested(v.fi.node))
-        good = []
-        for n in walk_no_nested(v.fi.node):
-            if isinstance(n, ast.Call) and norm(n.func) in adders and n.args and isinstance(n.args[0], ast.Name) and n.args[0].id in popped | {"start"}:
-                ifs = v.enclosing_all(n, (ast.If,))
-                if all(norm(i.test) in (f"{n.args[0].id} not in {V}", f"not {n.args[0].id} in {V}") for i in ifs):
-                    good.append(n)
-        res.check(init_has_start or bool(good), "B-START", f, norm(good[0]) if good else f"{V}.add(<dequeued node>)", "start-in-component", "the search never adds the dequeued node itself to the visited set (nodes are only marked when discovered through a hyperedge): a start node without a (filtered) hyperedge yields an EMPTY component instead of the singleton {start}", loc(v.fi, v.fi.node))
+            raise AnalysisError("degree.degree: no return")
+        for r in rets:
+            e = r.value
+            ok = (
+                isinstance(e, ast.Call) and isinstance(e.func, ast.Name) and e.func.id == "len" and len(e.args) == 1
+                and isinstance(e.args[0], ast.Call) and isinstance(e.args[0].func, ast.Attribute) and e.args[0].func.attr == "get_incident_edges"
+                and e.args[0].args and isinstance(e.args[0].args[0], ast.Name) and e.args[0].args[0].id == "node"
+            )
+            if not ok and isinstance(e, ast.Call) and isinstance(e.func, ast.Name) and e.func.id == "len" and e.args and isinstance(e.args[0], ast.Call) and isinstance(e.args[0].func, ast.Name) and e.args[0].func.id in ("list", "set", "tuple"):
+                inner = e.args[0].args[0] if e.args[0].args else None
+                ok = isinstance(inner, ast.Call) and isinstance(inner.func, ast.Attribute) and inner.func.attr == "get_incident_edges" and inner.args and isinstance(inner.args[0], ast.Name) and inner.args[0].id == "node" and e.args[0].func.id != "set" or (e.args[0].func.id == "set" and False)
+            res.check(bool(ok), "D-LEN", v.fi.short, norm(r), "len(incident)", "degree is not the length of the node's (filtered) incident-hyperedge list", loc(v.fi, r))
+    # ---- degree_sequence: {node: hg.degree(node, ...) for node in hg.get_nodes()}
+    with res.guard("degree_sequence: {node: hg.degree(node, ...) for node in hg.get_nodes()}"):
+        v = ctx.view("degree.degree_sequence")
+        comps = [n for n in walk_no_nested(v.fi.node) if isinstance(n, ast.DictComp)]
+        if not comps:
+            raise AnalysisError("degree.degree_sequence: dict comprehension idiom not found")
+        for c in comps:
+            g = c.generators[0]
+            it_ok = isinstance(g.iter, ast.Call) and isinstance(g.iter.func, ast.Attribute) and g.iter.func.attr == "get_nodes" and not g.ifs and len(c.generators) == 1
+            tgt = g.target.id if isinstance(g.target, ast.Name) else None
+            key_ok = isinstance(c.key, ast.Name) and c.key.id == tgt
+            val_ok = isinstance(c.value, ast.Call) and isinstance(c.value.func, ast.Attribute) and c.value.func.attr == "degree" and c.value.args and isinstance(c.value.args[0], ast.Name) and c.value.args[0].id == tgt
+            res.check(it_ok, "D-SEQ", v.fi.short, norm(c), "all-nodes", "the degree sequence does not range over every node of get_nodes() exactly once", loc(v.fi, c))
+            res.check(key_ok and val_ok, "D-SEQ", v.fi.short, norm(c), "same-node", "the degree stored for a node is not degree(<that node>)", loc(v.fi, c))
+        v = ctx.view("degree.degree_distribution")
+        augs = [n for n in walk_no_nested(v.fi.node) if isinstance(n, ast.AugAssign)]
+        res.check(bool(augs) and all(isinstance(a.op, ast.Add) and isinstance(a.value, ast.Constant) and a.value.value == 1 for a in augs), "D-SEQ", v.fi.short, norm(augs[0]) if augs else "+= 1", "histogram", "the degree histogram does not count each node exactly once", loc(v.fi, augs[0] if augs else v.fi.node))
+        loops = [n for n in walk_no_nested(v.fi.node) if isinstance(n, ast.For)]
+        res.check(any(isinstance(l.iter, ast.Call) and isinstance(l.iter.func, ast.Attribute) and l.iter.func.attr in ("items", "values") for l in loops), "D-SEQ", v.fi.short, "for node, deg in degree_seq.items()", "over-sequence", "the histogram is not built from the degree sequence", loc(v.fi, v.fi.node))
+    # ---- connected_components sweep
+    with res.guard("connected_components sweep"):
+        v = ctx.view("cc.connected_components")
+        f = v.fi.short
+        loops = [n for n in walk_no_nested(v.fi.node) if isinstance(n, ast.For) and isinstance(n.iter, ast.Call) and isinstance(n.iter.func, ast.Attribute) and n.iter.func.attr == "get_nodes"]
+        res.check(len(loops) == 1, "CC-COVER", f, "for node in hg.get_nodes()", "sweep", "the component sweep does not range over every node", loc(v.fi, v.fi.node))
+        for lp in loops:
+            node = lp.target.id if isinstance(lp.target, ast.Name) else None
+            guards = [n for n in ast.walk(lp) if isinstance(n, ast.If) and isinstance(n.test, ast.Compare) and len(n.test.ops) == 1 and isinstance(n.test.ops[0], ast.NotIn) and isinstance(n.test.left, ast.Name) and n.test.left.id == node and isinstance(n.test.comparators[0], ast.Name)]
+            res.check(len(guards) == 1, "CC-COVER", f, f"if {node} not in visited", "guard", "a search is not started exactly for the nodes that are not yet visited", loc(v.fi, lp))
+            for g in guards:
+                vis = g.test.comparators[0].id
+                searches = [c for c in ast.walk(g) if isinstance(c, ast.Call) and isinstance(c.func, ast.Name) and c.func.id in ("_bfs", "_dfs")]
+                s_ok = [c for c in searches if len(c.args) >= 2 and isinstance(c.args[1], ast.Name) and c.args[1].id == node]
+                res.check(bool(s_ok), "CC-COVER", f, norm(searches[0]) if searches else "_bfs(hg, node, ...)", "search-from-node", "the search is not started from the unvisited node", loc(v.fi, g))
+                comp_names = set()
+                for a in ast.walk(g):
+                    if isinstance(a, ast.Assign) and isinstance(a.value, ast.Call) and a.value in s_ok and isinstance(a.targets[0], ast.Name):
+                        comp_names.add(a.targets[0].id)
+                marked = False
+                appended = False
+                for a in ast.walk(g):
+                    if isinstance(a, ast.AugAssign) and isinstance(a.target, ast.Name) and a.target.id == vis and isinstance(a.value, ast.Name) and a.value.id in comp_names:
+                        marked = True
+                    if isinstance(a, ast.Call) and isinstance(a.func, ast.Attribute) and isinstance(a.func.value, ast.Name) and a.func.value.id == vis and a.func.attr in ("extend", "update") and a.args and isinstance(a.args[0], ast.Name) and a.args[0].id in comp_names:
+                        marked = True
+                    if isinstance(a, ast.Call) and isinstance(a.func, ast.Attribute) and a.func.attr == "append" and a.args and isinstance(a.args[0], ast.Name) and a.args[0].id in comp_names:
+                        appended = True
+                res.check(marked, "CC-COVER", f, f"{vis} += component", "mark-visited", "the nodes of a found component are not marked visited (components would be reported repeatedly)", loc(v.fi, g))
+                res.check(appended, "CC-COVER", f, "components.append(component)", "collect", "a found component is not added to the result", loc(v.fi, g))
+    # ---- B-START: the start node itself always belongs to the visited set a search returns
+    with res.guard("B-START: the start node itself always belongs to the visited set a search returns"):
+        res.rules["B-START"] = "a search puts its start node (the node dequeued from a queue seeded with `start`) into the returned set, guarded by nothing but `not in visited`"
+        for d in ("visits._bfs", "visits._dfs"):
+            v = ctx.view(d)
+            f = v.fi.short
+            rets = [n for n in walk_no_nested(v.fi.node) if isinstance(n, ast.Return) and isinstance(n.value, ast.Name)]
+            if not rets:
+                raise AnalysisError(f"{f}: return of the visited set not found")
+            V = rets[0].value.id
+            adders = {f"{V}.add"}
+            for n in walk_no_nested(v.fi.node):
+                if isinstance(n, ast.Assign) and isinstance(n.targets[0], ast.Name) and norm(n.value) == f"{V}.add":
+                    adders.add(n.targets[0].id)
+            # the container seeded with start, and the names unpacked from popping it
+            seeded = [n for n in walk_no_nested(v.fi.node) if isinstance(n, ast.Assign) and isinstance(n.targets[0], ast.Name) and "start" in {x.id for x in ast.walk(n.value) if isinstance(x, ast.Name)} and n.targets[0].id != V]
+            qnames = {n.targets[0].id for n in seeded}
+            popped = set()
+            for n in walk_no_nested(v.fi.node):
+                if isinstance(n, ast.Assign) and isinstance(n.value, ast.Call) and isinstance(n.value.func, ast.Attribute) and n.value.func.attr in ("popleft", "pop") and norm(n.value.func.value) in qnames:
+                    tg = n.targets[0]
+                    first = tg.elts[0] if isinstance(tg, ast.Tuple) else tg
+                    if isinstance(first, ast.Name):
+                        popped.add(first.id)
+            init_has_start = any(isinstance(n, ast.Assign) and isinstance(n.targets[0], ast.Name) and n.targets[0].id == V and "start" in {x.id for x in ast.walk(n.value) if isinstance(x, ast.Name)} for n in walk_no_nested(v.fi.node))
+            good = []
+            for n in walk_no_nested(v.fi.node):
+                if isinstance(n, ast.Call) and norm(n.func) in adders and n.args and isinstance(n.args[0], ast.Name) and n.args[0].id in popped | {"start"}:
+                    ifs = v.enclosing_all(n, (ast.If,))
+                    if all(norm(i.test) in (f"{n.args[0].id} not in {V}", f"not {n.args[0].id} in {V}") for i in ifs):
+                        good.append(n)
+            res.check(init_has_start or bool(good), "B-START", f, norm(good[0]) if good else f"{V}.add(<dequeued node>)", "start-in-component", "the search never adds the dequeued node itself to the visited set (nodes are only marked when discovered through a hyperedge): a start node without a (filtered) hyperedge yields an EMPTY component instead of the singleton {start}", loc(v.fi, v.fi.node))
     res.assumptions += [
         "un-annotated `hg` parameters denote a Hypergraph; the degree functions are checked against all four containers (tables.POLYMORPHIC)",
         "correctness of the breadth-first search itself (that it computes reachability classes) is not decided",
